@@ -343,16 +343,26 @@ impl<'a> DwarfUnwinder<'a> {
                 break;
             }
 
+            // the walk ends where the next frame cannot be established (for example, a return
+            // address restored by rules that cannot be evaluated), frames found so far are valid
+            let Ok(global_pc) = return_addr.into_global(self.debugee) else {
+                warn!(target: "debugger", "unwind stopped: {return_addr} is outside of any known object");
+                break;
+            };
             let next_location = Location {
                 pc: return_addr,
-                global_pc: return_addr.into_global(self.debugee)?,
+                global_pc,
                 pid: ucx.location.pid,
             };
 
             ecx = ExplorationContext::new(next_location, ecx.frame_num() + 1);
-            ucx = match UnwindContext::next(ucx, &ecx)? {
-                None => break,
-                Some(ucx) => ucx,
+            ucx = match UnwindContext::next(ucx, &ecx) {
+                Ok(None) => break,
+                Ok(Some(ucx)) => ucx,
+                Err(e) => {
+                    warn!(target: "debugger", "unwind stopped at {return_addr}: {e}");
+                    break;
+                }
             };
 
             let span = FrameSpan::new(self.debugee, next_location)?;
